@@ -12,4 +12,3 @@ impl LabeledPolynomial {
     pub fn coeffs(&self) -> (r: &[Fr]) ensures r@ == self.polynomial.coeffs@ { self.polynomial.coeffs() }
     pub fn evaluate(&self, point: &Fr) -> (r: Fr) ensures r@ == self.polynomial.ev(point@) { self.polynomial.evaluate(point) }
 }
-#[verifier::external_body] pub fn string_to_string(s: &String) -> (r: String) ensures r == *s { s.clone() }
